@@ -126,6 +126,33 @@ func (pool *TxPool) VerifSnapshot(addrs []common.Address) *VerifPoolSnapshot {
 	return s
 }
 
+// VerifItems lists the transactions of every pending / queued list straight from the
+// nonce->transaction maps, i.e. NOT through txSortedMap.Flatten and its lazily built sort
+// cache, in no particular order. It is the cache-independent reference the concurrent
+// reader checks compare the exported views with.
+func (pool *TxPool) VerifItems() (map[common.Address]types.Transactions, map[common.Address]types.Transactions) {
+	pool.mu.Lock()
+	defer pool.mu.Unlock()
+
+	pending := make(map[common.Address]types.Transactions)
+	for addr, list := range pool.pending {
+		txs := make(types.Transactions, 0, len(list.txs.items))
+		for _, tx := range list.txs.items {
+			txs = append(txs, tx)
+		}
+		pending[addr] = txs
+	}
+	queued := make(map[common.Address]types.Transactions)
+	for addr, list := range pool.queue {
+		txs := make(types.Transactions, 0, len(list.txs.items))
+		for _, tx := range list.txs.items {
+			txs = append(txs, tx)
+		}
+		queued[addr] = txs
+	}
+	return pending, queued
+}
+
 // VerifSetIntervals sets the package-level ticker intervals read once by loop() when a
 // pool starts, and returns the previous values. Call it only while no pool is running.
 func VerifSetIntervals(evict, report time.Duration) (time.Duration, time.Duration) {
